@@ -26,6 +26,7 @@ type c13Case struct {
 	Nearest int      `json:"nearest"` // index of the value NearestMatch is asked about, -1 none
 	Late    int      `json:"late"`    // 1 + index of a value registered only after a first MultipleMatch call (0: none)
 	LatePre bool     `json:"latepre"` // ... through AddPrecomputedValue instead of AddValue
+	Shared  bool     `json:"shared"`  // the normaliser list is a caller-owned slice which the caller overwrites after registering the values
 }
 
 func c13Norm(c c13Case, s string) string {
@@ -40,7 +41,17 @@ func c13Norm(c c13Case, s string) string {
 // parent detects that and attributes it to the case.
 func runC13Case(c c13Case) string {
 	var cl *sc.Classifier
-	if c.Flatten {
+	var callerList []sc.NormalizeFunc
+	if c.Shared {
+		// a history: the caller keeps the slice it passed as funcs... and reuses it afterwards
+		callerList = make([]sc.NormalizeFunc, 0, 4)
+		if c.Flatten {
+			callerList = append(callerList, sc.FlattenWhitespace)
+		} else {
+			callerList = append(callerList, func(s string) string { return s })
+		}
+		cl = sc.New(c.Thr, callerList...)
+	} else if c.Flatten {
 		cl = sc.New(c.Thr, sc.FlattenWhitespace)
 	} else {
 		cl = sc.New(c.Thr)
@@ -82,6 +93,9 @@ func runC13Case(c c13Case) string {
 			return v
 		}
 	}
+	if c.Shared {
+		callerList[0] = func(s string) string { return strings.ToUpper(s) + " reused" }
+	}
 	nu := c13Norm(c, c.Unknown)
 	ms := cl.MultipleMatch(c.Unknown)
 	for _, m := range ms {
@@ -122,6 +136,19 @@ func runC13Case(c c13Case) string {
 				for _, m := range ms {
 					if m.Name == fmt.Sprintf("k%d", c.Planted) && m.Confidence == 1.0 && m.Offset == off && m.Offset+m.Extent == tokEnd {
 						cls = "copy-ends-inside-a-token"
+					}
+				}
+			}
+			if off > 0 && cls == "-" {
+				// the copy starts inside a token: the start token is not found, the reported span starts at the
+				// beginning of the text and its confidence is that of the whole span (known finding); the value
+				// must still be reported with a span inside the text that contains the copy
+				rn, _ := utf8.DecodeLastRuneInString(nu[:off])
+				if !(unicode.IsSpace(rn) || unicode.IsPunct(rn)) {
+					for _, m := range ms {
+						if m.Name == fmt.Sprintf("k%d", c.Planted) && m.Offset <= off && m.Offset+m.Extent >= off+len(nv) && m.Offset+m.Extent <= len(nu) {
+							cls = "copy-starts-inside-a-token"
+						}
 					}
 				}
 			}
@@ -229,6 +256,23 @@ func genC13(r *rng) c13Case {
 			c.Late = 1 + c.Planted
 		}
 		c.LatePre = r.chance(1, 2)
+	}
+	c.Shared = r.chance(1, 5)
+	if r.chance(1, 8) {
+		// the occurrence starts inside a token: a short value glued to the end of the last word of the text
+		// ("MIT" in "please SUBMIT"), or glued to a word in the middle
+		g := []string{"sub", "x", "pre-", "9"}[r.intn(4)]
+		for i, v := range c.Values {
+			if !strings.ContainsAny(v, " \t\n") && len(v) > 0 {
+				c.Planted = i // a one-token value: the occurrence can lie wholly inside the last token
+			}
+		}
+		v := c.Values[c.Planted]
+		if r.chance(1, 2) {
+			c.Unknown = strings.TrimSpace(pre + " " + g + v)
+		} else {
+			c.Unknown = strings.TrimSpace(pre + " " + g + v + " " + fill(1+r.intn(4)))
+		}
 	}
 	return c
 }
